@@ -293,10 +293,57 @@ fn run_case<A: Alphabet>(case: u64, rng: &mut Rng, rep: &mut Report, alpha: &str
     rep.sample(|| wit(J::obj().set("step", J::f(step)).set("sf_len", J::u(sf.len())).set("min_pvalue", J::f(dist.min_pvalue()))).set("case", J::UInt(case)));
 }
 
+/// A user-defined RNA alphabet whose `symbols()` are listed alphabetically (A C G U N) while the
+/// column indices follow another order (A=0 C=1 U=2 G=3 N=4): position in the list != index.
+#[derive(Clone, Copy, Debug, PartialEq, Eq)]
+pub struct R5(pub u8);
+
+impl Default for R5 {
+    fn default() -> Self {
+        R5(4)
+    }
+}
+
+impl lightmotif::abc::Symbol for R5 {
+    fn as_index(&self) -> usize {
+        self.0 as usize
+    }
+    fn as_ascii(&self) -> u8 {
+        b"ACUGN"[self.0 as usize]
+    }
+    fn from_ascii(c: u8) -> Result<Self, lightmotif::err::InvalidSymbol> {
+        match b"ACUGN".iter().position(|&x| x == c) {
+            Some(i) => Ok(R5(i as u8)),
+            None => Err(lightmotif::err::InvalidSymbol(c as char)),
+        }
+    }
+}
+
+static R5_LISTED: [R5; 5] = [R5(0), R5(1), R5(3), R5(2), R5(4)];
+
+#[derive(Clone, Copy, Debug, Default, PartialEq, Eq)]
+pub struct RnaListed;
+
+impl Alphabet for RnaListed {
+    type Symbol = R5;
+    type K = lightmotif::num::U5;
+    fn symbols() -> &'static [R5] {
+        &R5_LISTED
+    }
+    fn as_str() -> &'static str {
+        "ACGUN"
+    }
+}
+
 pub fn run(cfg: &Config) -> Report {
     let n = cfg.n(3000, 100_000) as u64;
     run_cases(cfg, n, |case, rng, rep| {
-        if case % 4 == 3 {
+        if case % 16 == 9 {
+            // 39 regular symbols: exact enumeration up to width 2
+            run_case::<crate::iowide::Wide40>(case, rng, rep, "user_defined_40", 2)
+        } else if case % 16 == 5 {
+            run_case::<RnaListed>(case, rng, rep, "user_defined_listed_out_of_index_order", 7)
+        } else if case % 4 == 3 {
             run_case::<Protein>(case, rng, rep, "protein", 3)
         } else {
             run_case::<Dna>(case, rng, rep, "dna", 8)
